@@ -450,6 +450,7 @@ def run(ctx):
         chars = set()
         omen_tbl = {}
         cases = []
+        shard_bytes = 0
         for it in items:
             pt = it["pt"]
             is_m = any(t[0] == "M" for t, _ in pt)
@@ -507,7 +508,14 @@ def run(ctx):
                 seen.add(key)
                 if has_mask or adj or is_m or total > 1:
                     nontrivial += 1
-            cases.append("(%s,\n  %s)" % (slots_literal(g, pt), common.clist([call_literal(l, res) for l, res in calls])))
+            lit = "(%s,\n  %s)" % (slots_literal(g, pt), common.clist([call_literal(l, res) for l, res in calls]))
+            # the model shard of one ruleset stays a literal coqc can read in minutes (DESIGN: no multi-MB literals); a pre-terminal
+            # beyond the budget is still judged by the direct oracle above, only its model case is left out (counted)
+            shard_bytes += len(lit)
+            if shard_bytes > 4_000_000:
+                dist["model_cases_left_out_for_size"] = dist.get("model_cases_left_out_for_size", 0) + 1
+            else:
+                cases.append(lit)
             if len(samples) < 3 and has_mask:
                 samples.append({"pt": pt, "groups": [g.grammar[t][ix]["values"] for t, ix in pt],
                                 "lines": calls[0][1][0][:6] if calls[0][1] else None})
